@@ -578,16 +578,34 @@ let rec texpr_of (s : sexp) : Resolve.texpr =
   | L [A "paren"; e] -> Resolve.TParen (texpr_of e)
   | L [A "cast"; e; t] -> Resolve.TTypeCast (texpr_of e, vtype_of t)
   | _ -> failwith "texpr"
+(* the DECLARATIVE classes of Proofs/ResolveProofs.v (what the documentation says an operator accepts),
+   for one-node expressions: spec=ok / spec=err is appended so that a disagreement between the real
+   compiler and the specification comes with the concrete program *)
+let operand_of (s : sexp) : IR.operand_type option =
+  match s with A "ptr" -> Some IR.OPointer | A "other" -> None | A p -> Some (IR.OPrim (prim_of_string p)) | _ -> None
+let spec_of (x : sexp) : string =
+  let b v = if v then " spec=ok" else " spec=err" in
+  match x with
+  | L [A "expr"; L [A "bin"; A ".."; L [A "v"; l]; L [A "v"; r]]] -> b (l = A "ptr" && r = A "usize")
+  | L [A "expr"; L [A "bin"; A op; L [A "v"; l]; L [A "v"; r]]] ->
+      (match operand_of l with Some o -> b (l = r && ResolveProofs.binop_class (binop_of_string op) o) | None -> "")
+  | L [A "expr"; L [A "un"; A op; L [A "v"; t]]] ->
+      (match operand_of t with Some o -> b (ResolveProofs.unop_class (unop_of_string op) o) | None -> "")
+  | L [A "cmp"; A op; L [A "v"; l]; L [A "v"; r]] ->
+      (match operand_of l with Some o -> b (l = r && ResolveProofs.cmpop_class (cmpop_of_string op) o) | None -> "")
+  | L [A "expr"; L [A "cast"; L [A "v"; A s]; A d]] when s <> "ptr" && d <> "ptr" && s <> "other" && d <> "other" ->
+      b (s = d || ResolveProofs.conversion_spec (prim_of_string s) (prim_of_string d))
+  | _ -> ""
 let run_resolve (x : sexp) : string =
   let show = function Resolve.Ok _ -> "ok" | Resolve.Err es -> "err " ^ codes_to_string es in
-  match x with
+  (match x with
   | L [A "expr"; e] -> show (Resolve.resolve_expr (texpr_of e))
   | L [A "cmp"; A op; l; r] ->
       (match Resolve.resolve_cmp (Resolve.TCmp (cmpop_of_string op, texpr_of l, texpr_of r)) with
        | Resolve.Ok _ -> "ok" | Resolve.Err es -> "err " ^ codes_to_string es)
   | L [A "call"; L ps; L args] ->
       (match Resolve.check_call (List.map vtype_of ps) (List.map vtype_of args) with [] -> "ok" | es -> "err " ^ codes_to_string es)
-  | _ -> failwith "resolve"
+  | _ -> failwith "resolve") ^ spec_of x
 
 (* ---- control-flow lowering (Model/Cfg.v) ---- *)
 let rec cfg_stmt (s : sexp) : Cfg.stmt =
